@@ -243,7 +243,26 @@ static void run_dside(long idx)
             size_t const bound = ZSTD_estimateDStreamSize(V_MIN(Wsz, (size_t)V_MIN(h2.windowSize, (unsigned long long)1 << 31)));
             if (h2.windowSize > Wsz && !ZSTD_isError(ret)) v_viol("dlimit:frame-beyond-limit-accepted-on-buffering-history", "%s forged window=%llu", desc, h2.windowSize);
             if (ca_peak > bound) v_viol("dlimit:heap-decoder-holds-more-than-documented-bound", "%s forged window=%llu peak=%zu bound=%zu", desc, h2.windowSize, ca_peak, bound);
-            ZSTD_freeDStream(d); v_stat("forged_header_cases", 1); }
+            ZSTD_freeDStream(d); v_stat("forged_header_cases", 1);
+            /* the same forged frame as the SECOND frame of a stream: the context first decodes the genuine frame (its buffers then already fit the forged one, whose content is no larger) */
+            {   ca_live = ca_peak = 0; ZSTD_DStream* d2 = ZSTD_createDStream_advanced(CMEM); ZSTD_DCtx_setParameter(d2, ZSTD_d_windowLogMax, Wlog);
+                size_t p1 = 0; size_t const r1 = dstream_buffered(d2, g_dst, fs, n, inChunk, outChunk, &p1);
+                if (!ZSTD_isError(r1)) { size_t p2 = 0; size_t const r2 = dstream_buffered(d2, f2, fs, n, inChunk, outChunk, &p2);
+                    if (h2.windowSize > Wsz && !ZSTD_isError(r2)) v_viol("dlimit:frame-beyond-limit-accepted-on-buffering-history", "%s forged window=%llu as the second frame of a stream", desc, h2.windowSize);
+                    v_stat("forged_header_cases_as_second_frame", 1); }
+                ZSTD_freeDStream(d2); }
+            /* ... and crafted so that nothing has to be re-sized for the forged frame: genuine frame with a 128 KiB window, content size in the header, content larger than the window
+             * (hence a window descriptor); limit = that window; forged copy announces a window far above it while its content still fits the buffers the first frame left */
+            if (g_srcCap >= 300000) { size_t const m = 150000 + vr_u(&r, 100000); size_t const cb = ZSTD_compressBound(m); uint8_t* fA = (uint8_t*)__real_malloc(cb); ZSTD_CCtx* cc = ZSTD_createCCtx();
+                ZSTD_CCtx_setParameter(cc, ZSTD_c_windowLog, 17); ZSTD_CCtx_setParameter(cc, ZSTD_c_contentSizeFlag, 1); ZSTD_CCtx_setParameter(cc, ZSTD_c_compressionLevel, (int)vr_range(&r, 1, 5));
+                size_t const fsA = ZSTD_compress2(cc, fA, cb, g_src, m); ZSTD_freeCCtx(cc);
+                if (!ZSTD_isError(fsA) && !(fA[4] & 0x20)) { uint8_t* fB = (uint8_t*)__real_malloc(fsA); memcpy(fB, fA, fsA); fB[5] = (uint8_t)(((int)vr_range(&r, 19, 30) - 10) << 3);
+                    ZSTD_DStream* d3 = ZSTD_createDStream_advanced(CMEM); ZSTD_DCtx_setParameter(d3, ZSTD_d_windowLogMax, 17); size_t const ic = 500 + vr_u(&r, 3000), oc = 1000 + vr_u(&r, 9000);
+                    size_t p1 = 0; size_t const r1 = dstream_buffered(d3, fA, fsA, m, ic, oc, &p1);
+                    if (ZSTD_isError(r1) || p1 != m) v_viol("dlimit:frame-within-the-limit-refused", "window 2^17 under windowLogMax 17: %s", ZSTD_isError(r1) ? ZSTD_getErrorName(r1) : "short output");
+                    else { size_t p2 = 0; size_t const r2 = dstream_buffered(d3, fB, fsA, m, ic, oc, &p2); if (!ZSTD_isError(r2)) v_viol("dlimit:frame-beyond-limit-accepted-on-buffering-history", "second frame of a stream announces window descriptor 0x%02x under windowLogMax 17 (content %zu fits the buffers left by the first frame)", fB[5], m); v_stat("forged_header_cases_as_second_frame_fitting_the_buffers", 1); }
+                    ZSTD_freeDStream(d3); __real_free(fB); }
+                __real_free(fA); } }
         __real_free(f2);
     }
     {   /* sizeof for compression objects vs bytes held */
